@@ -15,5 +15,5 @@ ts = r if r.tag == 'testsuite' else r[0]
 print('BASELINE tests=%s failures=%s errors=%s skipped=%s' % (ts.get('tests'), ts.get('failures'), ts.get('errors'), ts.get('skipped')))
 PY
 rm -f "$OUT"
-echo "log: $OUT.log rc=$rc"
+[ "${KEEP_BASELINE_LOG:-0}" = 1 ] && echo "log: $OUT.log rc=$rc" || rm -f "$OUT.log"
 exit $rc
